@@ -182,7 +182,7 @@ Lemma run_pop_nouc tick vr loc u fl w m x crash : base_repaired vr -> nouc w -> 
   run_pop tick vr loc u fl w m x crash = run_pop tick repaired loc u fl w m x crash /\
   nouc (fst (fst (run_pop tick repaired loc u fl w m x crash))).
 Proof.
-  intros B H Hx. destruct x as [o|l s f|o t n v|o t n vo]; try discriminate; cbn [run_pop].
+  intros B H Hx. destruct x as [o|l s f|o t n v|o t n vo|o t n v]; try discriminate; cbn [run_pop].
   - unfold run_op. destruct (negb _); [split; [reflexivity|exact H]|].
     destruct (decide false (view (w_db w)) o) as [acts|e]; [|split; [reflexivity|exact H]].
     destruct (run_groups_nouc tick vr loc u fl (groups acts) B w m crash H) as [E N]. rewrite E.
